@@ -2,4 +2,71 @@
 
 package main
 
-func installVerifHooks() {}
+import (
+	"fmt"
+	"io"
+	"os"
+	"path/filepath"
+	"strings"
+	"sync"
+
+	redisemu "github.com/jimsnab/go-redisemu"
+)
+
+// The verif-tagged hook points of the emulator are wired here.
+//
+//   save.*  (snapshot writer): with -savestages <dir> every stage copies the persist files as they are on
+//           disk at that instant into <dir>/<n>-<stage>/ - the image a crash at that point would leave.
+//   blk.*   (block/wake loop): gates controlled over the child's stdin, see sched.go.
+
+var saveStagesDir string
+var persistBase string
+var stageMu sync.Mutex
+var stageN int
+
+func copyFile(src, dst string) error {
+	in, err := os.Open(src)
+	if err != nil {
+		return err
+	}
+	defer in.Close()
+	out, err := os.Create(dst)
+	if err != nil {
+		return err
+	}
+	defer out.Close()
+	_, err = io.Copy(out, in)
+	return err
+}
+
+func snapshotStage(point string) {
+	stageMu.Lock()
+	defer stageMu.Unlock()
+	stageN++
+	d := filepath.Join(saveStagesDir, fmt.Sprintf("%03d-%s", stageN, point))
+	os.MkdirAll(d, 0o755)
+	dir, base := filepath.Split(persistBase)
+	if dir == "" {
+		dir = "."
+	}
+	ents, _ := os.ReadDir(dir)
+	for _, e := range ents {
+		if !e.IsDir() && strings.HasPrefix(e.Name(), base+".db") {
+			copyFile(filepath.Join(dir, e.Name()), filepath.Join(d, e.Name()))
+		}
+	}
+}
+
+func installVerifHooks() {
+	redisemu.VerifHook = func(point string, id int64, arg string) {
+		if strings.HasPrefix(point, "save.") {
+			if saveStagesDir != "" {
+				snapshotStage(point)
+			}
+			return
+		}
+		if strings.HasPrefix(point, "blk.") {
+			gatePoint(point, id)
+		}
+	}
+}
